@@ -245,6 +245,30 @@ def run(c):
                               events=[{k: v for k, v in e.items() if k in ("ev", "req", "inc", "ok", "outcome", "at", "n")}
                                       for e in ex if e["ev"] not in ("reset",)][:40]))
 
+    # ---------------------------------------------------------------- 3b. one storage call overtaken by everything else
+    # Two-consumer scripts: storage call K of the first incarnation is HELD at its entry until every other goroutine has
+    # gone quiet, then applied, and the process dies right after it (xh.Store.SetHold).  The queue makes its storage
+    # calls under its mutex, so nothing can overtake a call and this equals a death at the entry of call K+1; a queue
+    # that released the mutex around a storage call would let dequeues / completions of the other consumer commit first
+    # and the held (older) state land on top of them.  The verdict is the monitor's, as for every other run.
+    hold_batch = []
+    for s, calls in usable:
+        if s.get("consumers", 1) >= 2 and calls:
+            for k in range(1, calls[0] + 1):
+                nid += 1
+                hold_batch.append(dict(s, id="h%d" % nid, dies=[], hold=k))
+    hlimit = 1200 if q else 12000
+    if len(hold_batch) > hlimit:
+        c.rng.shuffle(hold_batch)
+        hold_batch = hold_batch[:hlimit]
+    if hold_batch:
+        runs = execute(hold_batch, "hold")
+        for s, v in monitor(runs, hold_batch, "hold"):
+            lost.append((s, s["dies"], v))
+        crash_points += len(hold_batch)
+        c.extra["held_call_runs"] = len(hold_batch)
+        c.log("held-call runs (two consumers): %d" % len(hold_batch))
+
     # ---------------------------------------------------------------- verdicts
     # re-confirm every reported loss once (DESIGN 2.4): it must reproduce when the script is run alone
     confirmed = []
@@ -262,9 +286,11 @@ def run(c):
     for s, dies, v in lost:
         what = "accepted request(s) %s never handed over again (%s) cap=%d block=%s retry=%s script=[%s] dies=%s" % (
             v["owed"], v["kind"], s["cap"], s["block"], s["retry"], fmt(s["steps"]), dies)
+        if s.get("hold"):
+            what += " consumers=%d, storage call %d held until all else was quiet, death right after it" % (s.get("consumers", 1), s["hold"])
         sig = None
         if len(seen_sig) < 10:
-            c.violation(what, replay_obj=dict(script={k: s[k] for k in ("cap", "block", "retry", "consumers", "steps")}, dies=dies),
+            c.violation(what, replay_obj=dict(script={k: s[k] for k in ("cap", "block", "retry", "consumers", "steps", "hold") if k in s}, dies=dies),
                         signature=sig)
             seen_sig.add(what)
     c.extra["lost_runs"] = len(lost)
